@@ -650,11 +650,70 @@ fn compile_select_statement(
     Ok(query)
 }
 
+/// Longest query text that is parsed, in bytes.
+const MAX_QUERY_LENGTH: usize = 4096;
+/// Largest number of comparison and logical operators in a query.
+const MAX_QUERY_OPERATORS: usize = 64;
+/// Deepest nesting of parentheses, and largest number of prefix operators.
+const MAX_QUERY_NESTING: usize = 32;
+
+/// Parsing, compiling and executing a query recurse with its nesting, so a
+/// short but deeply nested text could exhaust the stack. The nesting of an
+/// expression is bounded by its parentheses, prefix operators and binary
+/// operators, which are limited here; larger queries are refused.
+fn check_query_size(
+    sql: &str,
+    dialect: &sqlparser::dialect::GenericDialect,
+) -> Result<(), CompilationError> {
+    use sqlparser::keywords::Keyword;
+    use sqlparser::tokenizer::{Token, Tokenizer};
+
+    if sql.len() > MAX_QUERY_LENGTH {
+        return Err(CompilationError::ParseError(format!(
+            "query longer than {MAX_QUERY_LENGTH} bytes"
+        )));
+    }
+    let tokens = Tokenizer::new(dialect, sql)
+        .tokenize()
+        .map_err(|e| CompilationError::ParseError(format!("{e}")))?;
+    let (mut operators, mut depth, mut max_depth, mut prefix_operators) =
+        (0usize, 0usize, 0usize, 0usize);
+    for token in &tokens {
+        match token {
+            Token::LParen => {
+                depth += 1;
+                max_depth = max_depth.max(depth);
+            }
+            Token::RParen => depth = depth.saturating_sub(1),
+            Token::Minus | Token::Plus => prefix_operators += 1,
+            Token::Eq | Token::Neq | Token::Lt | Token::Gt | Token::LtEq | Token::GtEq => {
+                operators += 1
+            }
+            Token::Word(word) => match word.keyword {
+                Keyword::NOT => prefix_operators += 1,
+                Keyword::AND | Keyword::OR | Keyword::BETWEEN => operators += 1,
+                _ => {}
+            },
+            _ => {}
+        }
+    }
+    if operators > MAX_QUERY_OPERATORS
+        || max_depth > MAX_QUERY_NESTING
+        || prefix_operators > MAX_QUERY_NESTING
+    {
+        return Err(CompilationError::ParseError(
+            "query too large or too deeply nested".to_string(),
+        ));
+    }
+    Ok(())
+}
+
 pub fn compile(
     sql: &str,
     input: &impl CompilationInput,
 ) -> Result<CompiledQuery, CompilationError> {
     let dialect = sqlparser::dialect::GenericDialect {};
+    check_query_size(sql, &dialect)?;
 
     match sqlparser::parser::Parser::parse_sql(&dialect, sql) {
         Ok(ast) => {
